@@ -197,7 +197,11 @@ def render_free(stmts, r, opts=None):
             toks_used.append(toks)
             pre = ""
             if st.label is not None:
-                pre += "%d " % st.label
+                lab = "%d" % st.label
+                if o.get("label_zeros") and r.random() < o["label_zeros"] and len(lab) < 5:
+                    lab = "0" * r.randrange(1, 6 - len(lab)) + lab
+                    out.feat("label_leading_zeros")
+                pre += lab + r.choice([" ", " ", "  ", "\t"] if o.get("tabs") else [" "])
             if st.name is not None:
                 nm = st.name.upper() if (o["casemix"] and r.random() < o["casemix"]) else st.name
                 pre += nm + (": " if r.random() < 0.7 else " : ")
@@ -247,6 +251,14 @@ def render_free(stmts, r, opts=None):
                 line += " " + c
                 out.add_comment(c.strip(), pending=True)
                 out.feat("trailing_comment")
+            if o.get("tabs") and r.random() < o["tabs"] and line[:1] == " " and \
+                    not line.lstrip().startswith("&") and "'" not in line and '"' not in line:
+                # a leading tab instead of blanks (expanded by the reader)
+                line = "\t" + line.lstrip(" ")
+                out.feat("tab_indent")
+            if o.get("trailing_ws") and r.random() < o["trailing_ws"]:
+                line = line + r.choice([" ", "   ", "\t"])
+                out.feat("trailing_whitespace")
             out.lines.append(line)
             last = len(out.lines)
             if kind is not None and r.random() < o["cont_comment"]:
